@@ -13,6 +13,14 @@ import (
 	"time"
 )
 
+// outDir is where evidence, replay files and solver work files go (GOVC_OUT overrides it for self-tests).
+func outDir() string {
+	if d := os.Getenv("GOVC_OUT"); d != "" {
+		return d
+	}
+	return verifDir
+}
+
 // ---------------- lock / unproved / known findings ----------------
 
 type lockEntry struct {
@@ -243,7 +251,7 @@ func cmdCheck(args []string) int {
 		return 1
 	}
 	loadMs := time.Since(t0).Milliseconds()
-	work := filepath.Join(verifDir, "work")
+	work := filepath.Join(outDir(), "work")
 	_ = os.RemoveAll(filepath.Join(work, *prop))
 	pr := runProperty(w, *prop, timeout, all, work)
 	pr.LoadMs = loadMs
@@ -367,7 +375,7 @@ func cmdCheck(args []string) int {
 }
 
 func writeReplay(prop, oblig string, body map[string]any) string {
-	dir := filepath.Join(verifDir, "replays", prop)
+	dir := filepath.Join(outDir(), "replays", prop)
 	_ = os.MkdirAll(dir, 0o755)
 	p := filepath.Join(dir, sanitize(oblig)+".json")
 	data, _ := json.MarshalIndent(body, "", " ")
@@ -489,9 +497,9 @@ func writeEvidence(prop, tier string, seed int, pr *propRun, lock []lockEntry, v
 	cov["violations_detail"] = vs
 	ev["coverage"] = cov
 	ev["assumptions"] = assumptions
-	_ = os.MkdirAll(filepath.Join(verifDir, "evidence"), 0o755)
+	_ = os.MkdirAll(filepath.Join(outDir(), "evidence"), 0o755)
 	data, _ := json.MarshalIndent(ev, "", " ")
-	_ = os.WriteFile(filepath.Join(verifDir, "evidence", prop+".json"), data, 0o644)
+	_ = os.WriteFile(filepath.Join(outDir(), "evidence", prop+".json"), data, 0o644)
 }
 
 func keys(m map[string]bool) []string {
